@@ -23,6 +23,15 @@ REQ = ["Text.FilePos", "Text.FileText", "Text.Split", "Text.Wire", "S2S.Blocks",
 
 warnings.simplefilter("ignore", SyntaxWarning)
 
+ANCHORS = ["pyflyby._imports2s:SourceToSourceFileImportsTransformation.preprocess",
+           "pyflyby._imports2s:SourceToSourceFileImportsTransformation.pretty_print",
+           "pyflyby._imports2s:SourceToSourceFileImportsTransformation.insert_new_blocks_after_comments",
+           "pyflyby._imports2s:SourceToSourceFileImportsTransformation.insert_new_import_block",
+           "pyflyby._imports2s:SourceToSourceTransformationBase._from_source_code",
+           "pyflyby._parse:PythonBlock.concatenate", "pyflyby._parse:PythonBlock.groupby",
+           "pyflyby._parse:PythonBlock.statements", "pyflyby._parse:_split_code_lines",
+           "pyflyby._file:FileText.concatenate"]
+
 TOOLS = ["reformat", "reformat_str", "reformat_ft", "tidy", "star", "broken", "transform", "canonicalize", "cli_reformat", "cli_tidy"]
 
 # internal errors that belong to C03 (block selection / import-set algebra; F23, F24): counted, not judged here
@@ -52,6 +61,11 @@ WITNESSES = [
     ("F39", "tidy", "# just a comment"),
     ("F39b", "tidy", '"""doc"""'),
     ("deco", "tidy", '"""doc"""\n@\\\ndec\ndef f(): pass\n'),
+    ("F28", "tidy", "foo = 1 + \\\n    2;from os.path import a;'x'\n"),
+    ("F28b", "tidy", "x = 1; import a\nimport b\n# c\nimport os\nprint(os)\n"),
+    ("F9", "tidy", 'r"""raw"""\n"""# not a comment\n"""\nx = 1\n'),
+    ("F39c", "tidy", '"""doc"""; x = 1'),
+    ("F39d", "tidy", '# c\n"""doc"""; import sys\nprint(sys)\n'),
     ("nested", "reformat", "if x:\n    import b, a\nimport d, c  # gone\n# kept\nimport e\n"),
 ]
 
@@ -72,7 +86,7 @@ def gen_cases(ctx, n, ncorpus=0):
                 cases.append({"kind": "corpus", "path": path, "tool": "reformat", "src": src, "sp": [1, 1], "params": {}, "db": 0,
                               "flags": [True, True, True]})
     for tag, tool, src in WITNESSES:
-        cases.append({"kind": "witness", "tag": tag, "tool": tool, "src": src, "sp": [1, 1], "params": {}, "db": 3 if tag.startswith("doc") or tag in ("top", "comment_only_first", "F39", "F39b", "deco") else 0,
+        cases.append({"kind": "witness", "tag": tag, "tool": tool, "src": src, "sp": [1, 1], "params": {}, "db": 3 if tag.startswith("doc") or tag in ("top", "comment_only_first", "F39", "F39b", "F39c", "F39d", "F9", "deco") else 0,
                       "flags": [True, True, True]})
     i = 0
     ntotal = len(cases) + n + len(WITNESSES)
@@ -135,17 +149,11 @@ def impl_case(c):
         rec["out"] = res if isinstance(res, str) else res.joined
         return res
 
-    def probe_fso():
-        t = F(PythonBlock('"""doc"""\n"second"\nx = 1\n'))
-        o_ins(t)
-        return t.blocks[0].input.text.joined == '"""doc"""\n'
-
     out = {}
     logging.disable(logging.CRITICAL)
     try:
         with contextlib.redirect_stdout(io.StringIO()), contextlib.redirect_stderr(io.StringIO()), warnings.catch_warnings():
             warnings.simplefilter("ignore")
-            out["fso"] = probe_fso()
             F.preprocess, F.insert_new_import_block, F.pretty_print, IB.pretty_print = pre, ins, pp, ibpp
             try:
                 from pyflyby._importstmt import ImportFormatParams
@@ -229,15 +237,15 @@ def run_cli(tool, src):
 KCODE = {"Import": 0, "StrExpr": 1, "Other": 2}
 
 
-def pass_expr(p, fso):
+def pass_expr(p):
     try:
         tree, nodes = G.nodes_of(p["input"], tuple(p["sp"]))
     except (SyntaxError, ValueError):
         return None
     ns = cm.clist(["(%s, %s, %s, %s)" % (cm.cnat(n["start"][0]), cm.cnat(n["start"][1]), cm.cnat(n["last"]), cm.cnat(KCODE[n["kind"]]))
                    for n in nodes])
-    return "run_tool %s %s %s %s %s %s %s" % (cm.cstr(p["input"]), cm.cnat(p["sp"][0]), cm.cnat(p["sp"][1]), ns, cm.cbool(fso),
-                                              cm.cnat(p["inserts"]), cm.clist([cm.cstr(x) for x in p.get("renders", [])]))
+    return "run_tool %s %s %s %s %s %s" % (cm.cstr(p["input"]), cm.cnat(p["sp"][0]), cm.cnat(p["sp"][1]), ns,
+                                           cm.cnat(p["inserts"]), cm.clist([cm.cstr(x) for x in p.get("renders", [])]))
 
 
 # ---------------------------------------------------------------------------------------------
@@ -297,32 +305,55 @@ def remainder(text, extents):
     return "".join(res)
 
 
-def prologue_split(text, tree, extents):
-    """candidate offsets, in remainder coordinates, of the end of the prologue (leading comments,
-    blanks, string literal statements): the start of the first top-level statement that is not a
-    string literal statement - or, second reading (F9 repair), of the second string statement;
-    the end of the text if there is no such statement.  Statement starts come from the independent
-    node oracle (the "@" of a decorated definition)."""
+def prologue_end(text, extents):
+    """offset, in remainder coordinates, of the end of the prologue: leading comments, blank lines
+    and at most one string literal statement (the docstring) - i.e. the start of the first
+    top-level statement that is not the first leading string statement; the end of the text if
+    there is none.  Statement starts come from the independent node oracle ("@" of a decorated
+    definition)."""
     offs = char_offsets(text)
     _, nodes = G.nodes_of(text)
-    res = []
-    seen_str = 0
+    pos = len(text)
+    seen_str = False
     for n in nodes:
-        pos = offs[n["start"][0] - 1] + n["start"][1] - 1
-        if n["kind"] == "StrExpr":
-            seen_str += 1
-            if seen_str >= 2:
-                res.append(pos)
+        if n["kind"] == "StrExpr" and not seen_str:
+            seen_str = True
             continue
-        res.append(pos)
+        pos = offs[n["start"][0] - 1] + n["start"][1] - 1
         break
-    else:
-        res.append(len(text))
-    return [pos - sum(min(b, pos) - min(a, pos) for a, b in extents) for pos in res]
+    return pos - sum(min(b, pos) - min(a, pos) for a, b in extents)
 
 
-def frame_oracle(src, out):
-    """None if the frame holds, else a description.  Returns ("unparsable", msg) if the output cannot be parsed."""
+def match_with_options(rin, rout, opts, forbidden):
+    """Is rout = rin with, at each position p of `opts` (sorted [(p, [alternative insertions], guarded)]),
+    one of the alternatives inserted?  A guarded non-empty insertion may not sit where an import
+    statement was deleted from the output (offsets `forbidden`, in rout coordinates)."""
+    def go(k, i, j):
+        if k == len(opts):
+            return rin[i:] == rout[j:]
+        p, alts, guarded = opts[k]
+        seg = rin[i:p]
+        if rout[j:j + len(seg)] != seg:
+            return False
+        j2 = j + len(seg)
+        for alt in alts:
+            if rout.startswith(alt, j2):
+                if alt and guarded and (j2 in forbidden or j2 + len(alt) in forbidden):
+                    continue
+                if go(k + 1, p, j2 + len(alt)):
+                    return True
+        return False
+    return go(0, 0, 0)
+
+
+def frame_oracle(src, out, inserts=None):
+    """None if the frame holds, else (kind, description).  `inserts` = number of new import blocks the
+    tool created (observed by the wrapper; None = unknown, e.g. for the CLI: one or two).
+    Permitted differences between input and output, besides the top-level import statements
+    themselves: (1) right after the prologue, the blank line that follows a new import block (one per
+    new block, at most two), preceded by a line terminator if the prologue's last line had none;
+    (2) a single line break in place of an import statement that shared its line with preceding code
+    and was rewritten to nothing (F28)."""
     try:
         tin, ein = import_extents(src)
     except (SyntaxError, ValueError) as e:
@@ -334,11 +365,28 @@ def frame_oracle(src, out):
     rin, rout = remainder(src, ein), remainder(out, eout)
     if rin == rout:
         return None
-    for k in prologue_split(src, tin, ein):
-        for m in (1, 2):
-            if rout == rin[:k] + "\n" * m + rin[k:] and len(eout) > 0:
-                return None
-    # first difference
+    # offsets in rout where import statements were deleted from the output
+    forbidden, gone = set(), 0
+    for a, b in eout:
+        forbidden.add(a - gone)
+        gone += b - a
+    opts = {}
+    gone = 0
+    for a, b in ein:
+        ls = src.rfind("\n", 0, a) + 1
+        if src[ls:a].strip():                       # the statement shares its line with preceding code
+            opts.setdefault(a - gone, []).append((["\n", ""], True))
+        gone += b - a
+    if eout:
+        k = prologue_end(src, ein)
+        pro = rin[:k]
+        terms = ["\n", ""] if (pro and not pro.endswith("\n")) else [""]
+        ms = (2, 1) if inserts is None else ((inserts,) if inserts else ())
+        alts = [t + "\n" * m for t in terms for m in ms] + [""]
+        opts.setdefault(k, []).insert(0, (alts, False))
+    flat = [(p, alts, g) for p in sorted(opts) for alts, g in opts[p]]
+    if match_with_options(rin, rout, flat, forbidden):
+        return None
     d = next((i for i, (x, y) in enumerate(zip(rin, rout)) if x != y), min(len(rin), len(rout)))
     return ("frame", "text outside the top-level import statements differs at remainder offset %d: input %r / output %r"
             % (d, rin[max(0, d - 15):d + 25], rout[max(0, d - 15):d + 25]))
@@ -393,8 +441,10 @@ def short(c):
 
 
 def run(ctx):
-    n = 700 if ctx.quick else 12000
-    ncorpus = 60 if ctx.quick else None
+    cm.check_anchors(ctx, ANCHORS)
+    scale = getattr(ctx, "scale", 1)
+    n = (700 if ctx.quick else 12000) * scale
+    ncorpus = 60 * scale if ctx.quick else None
     ctx.coverage["rule"] = ("generated statement soups with 0-4 import runs and docstring/comment prologues x tool in {reformat (PythonBlock / str), "
                             "tidy with random flags and one of 4 small DBs, replace_star, remove_broken, transform({}), canonicalize} x 6 formatting "
                             "parameter sets; every SourceToSourceFileImportsTransformation created by the tool is one model evaluation (open mode); "
@@ -413,7 +463,7 @@ def run(ctx):
         for pi, p in enumerate(im["passes"]):
             if "out" not in p or len(p["input"]) > MAX_MODEL_CHARS:
                 continue
-            e = pass_expr(p, im["fso"])
+            e = pass_expr(p)
             if e is not None:
                 exprs.append(e)
                 where.append((ci, pi))
@@ -477,12 +527,12 @@ def compare_one(ctx, c, im, mvs):
     if im["passes"] and im["out"] != im["passes"][-1]["out"]:
         ctx.disagreement("tool result is not the output of its last pass", short(c), im["out"][-80:], im["passes"][-1]["out"][-80:])
     # ---- oracle
-    r = frame_oracle(src, im["out"])
+    inserts = sum(p["inserts"] for p in im["passes"]) if im["passes"] else None
+    r = frame_oracle(src, im["out"], inserts)
     if r is not None:
         kind, detail = r
-        if f39_insert_after_unterminated_prologue(c, src, im["out"]):
-            ctx.known_hit("F39", "an import added to a module that is only comments/docstring and has no final newline is glued onto the last line, e.g. %r" % im["out"][max(0, len(src) - 12):len(src) + 24])
-            ctx.bump("F39")
+        if False:
+            pass
         elif kind == "unparsable":
             ctx.bump("output_unparsable(C03)")
         elif kind == "skip":
@@ -509,7 +559,7 @@ def replay(payload):
         case = dict(case, src=c10.read_source(case["path"]))
     impl = cm.run_impl("c01", "impl_case", [case], jobs=1)
     im = impl[0]
-    exprs = [pass_expr(p, im["fso"]) for p in im.get("passes", []) if "out" in p]
+    exprs = [pass_expr(p) for p in im.get("passes", []) if "out" in p]
     model = cm.coq_eval_json(REQ, [e for e in exprs if e])
     print(json.dumps({"case": case, "impl": im, "model": model,
                       "oracle": frame_oracle(case["src"], im["out"]) if "out" in im else None}, indent=1, ensure_ascii=False))
